@@ -7,7 +7,7 @@ import os
 from .. import core, scen, treerun
 
 E = scen.ERRNO
-FIELDS = ('kind', 'mode', 'uid', 'gid', 'size', 'hash', 'mtime', 'target', 'rdev', 'xattr', 'nlink')
+FIELDS = ('kind', 'mode', 'uid', 'gid', 'size', 'hash', 'mtime', 'ctime', 'target', 'rdev', 'xattr', 'nlink')      # ctime: ANY change of the inode (a chmod back and forth, a re-set timestamp) shows
 
 
 def protected_diff(before, after, skip_prefixes):
@@ -19,7 +19,7 @@ def protected_diff(before, after, skip_prefixes):
         if w is None:
             out.append(f'{p!r} disappeared'); continue
         for f in FIELDS:
-            if f in ('mtime', 'nlink', 'size') and v['kind'] == 'dir':
+            if f in ('mtime', 'ctime', 'nlink', 'size') and v['kind'] == 'dir':
                 continue
             if v.get(f) != w.get(f):
                 out.append(f'{p!r}: {f} {v.get(f)} -> {w.get(f)}')
@@ -73,6 +73,7 @@ def alias_scenarios():
 def valid_scenario(driver):
     sc = treerun.Scn(); sc.driver = driver
     sc.d(b'/W').d(b'/X').f(b'/X/bystander').d(b'/W/S').f(b'/W/S/a').d(b'/W/S/sub').f(b'/W/S/sub/b').l(b'/W/S/l', b'a').s(b'/W/S/sub/fifo', 'fifo')
+    sc.l(b'/W/S/labs', b'/X/bystander').l(b'/W/S/sub/lsrc', b'/W/S/a').l(b'/W/S/ldir', b'/X')      # links whose text resolves, from the destination too, to a bystander / a source / a directory outside
     sc.d(b'/W/DEST').f(b'/W/DEST/keep').d(b'/W/DEST/S').f(b'/W/DEST/S/a')
     sc.opts = ['r']; sc.paths = [b'S', b'DEST']
     return sc
@@ -243,7 +244,32 @@ def run(ctx):
             if diff:
                 ctx.violation(f'foreign-owner-{driver}.json', dict(argv=[repr(x) for x in argv], exit=r.cls, stderr=r.stderr[-300:], diff=diff[:10]),
                               f'C03: copying with --ownership changed a SOURCE: {diff[0]}')
-    ctx.cov['rule'] = ('alias created by the run itself (link in one source to a file of a later source, first copy stalled); --ownership with foreign-owned set-id sources; alias table (other spelling, own directory, dir/../f, symlink, hard link, directory via symlink, absolute root link, link back into the source, .., special file) x '
+        # ---- (h) sources that have NOT BEEN READ since they were last changed (access time older than modification time: every
+        # file fresh from an unpack or a build).  Reading them moves the access time, which is the file system's business; the
+        # inode itself (change time, and the access time going BACKWARDS) is not for the copier to touch.  Snapshots here do not
+        # read file contents (that would be the first read).
+        for driver in ('parfile', 'parblock'):
+            sc = treerun.Scn(); sc.driver = driver
+            sc.d(b'/W').d(b'/W/S').f(b'/W/S/a').f(b'/W/S/b', text=b'B' * 70000).d(b'/W/S/sub').f(b'/W/S/sub/c').d(b'/W/D')
+            sc.opts = ['r']; sc.paths = [b'S', b'D']
+            root = base + '/R'
+            subprocess.run(f'rm -rf {root}', shell=True); os.makedirs(root)
+            treerun.materialise(root, sc)
+            for nm in ('a', 'b', 'sub/c'):
+                st = os.stat(f'{root}/W/S/{nm}'); os.utime(f'{root}/W/S/{nm}', ns=(st.st_mtime_ns - 3 * 86400 * 10 ** 9, st.st_mtime_ns))
+            import time; time.sleep(0.02)
+            before = scen.snapshot(root, content=False)
+            atime0 = {nm: os.stat(f'{root}/W/S/{nm}').st_atime_ns for nm in ('a', 'b', 'sub/c')}
+            argv = treerun.argv(root, sc)
+            r = scen.run_xcp(base + '/aux', argv, cwd=treerun.real(root, sc.cwd), timeout=30)
+            after = scen.snapshot(root, content=False)
+            ctx.count('plan.sources-never-read-before'); ctx.count(f'exit.{r.cls}'); ctx.case(('never-read-sources', driver), True)
+            diff = protected_diff(before, after, [b'W/D'])
+            diff += [f'access time of S/{nm} moved backwards' for nm in atime0 if os.stat(f'{root}/W/S/{nm}').st_atime_ns < atime0[nm]]
+            if diff:
+                ctx.violation(f'never-read-sources-{driver}.json', dict(argv=[repr(x) for x in argv], exit=r.cls, stderr=r.stderr[-300:], diff=diff[:10]),
+                              f'C03: copying sources that had not been read since their last change altered a SOURCE inode: {diff[0]}')
+    ctx.cov['rule'] = ('sources with an access time older than their modification time (inode change time compared); alias created by the run itself (link in one source to a file of a later source, first copy stalled); --ownership with foreign-owned set-id sources; alias table (other spelling, own directory, dir/../f, symlink, hard link, directory via symlink, absolute root link, link back into the source, .., special file) x '
                        'position x driver; then for a valid tree copy: SIGKILL before/after every mutating call and EIO/ENOSPC (thorough: 6 errnos) at every mutating call; each stat-family probe of the aliased scenarios failing once; bystanders named like backups (link, FIFO). '
                        'distinct = distinct (scenario, plan)')
     ctx.assumptions += ['SIGKILL leaves exactly the effects of completed calls', 'atime is not compared']
